@@ -55,7 +55,7 @@ def type_dump(t):
     if isinstance(t, pydsdl.VariableLengthArrayType):
         return ["varr", t.capacity, type_dump(t.element_type), t.length_field_type.bit_length]
     if isinstance(t, pydsdl.CompositeType):
-        return ["ref"] + _head(t)
+        return ["ref", _head(t)]
     return ["unknown", repr(t)]
 
 
@@ -70,11 +70,13 @@ def _bls(t):
 def _head(t):
     import pydsdl
 
-    out = [type(t).__name__, t.full_name, int(t.version.major), int(t.version.minor), _bls(t)]
+    out = {"class": type(t).__name__, "full_name": t.full_name, "version": [int(t.version.major), int(t.version.minor)], "bit_length_set": _bls(t)}
     if not isinstance(t, pydsdl.ServiceType):
-        out += [int(t.extent), int(t.alignment_requirement)]
+        out["extent"] = int(t.extent)
+        out["alignment_requirement"] = int(t.alignment_requirement)
     if isinstance(t, pydsdl.DelimitedType):
-        out += [type(t.inner_type).__name__, int(t.inner_type.extent), _bls(t.inner_type), t.delimiter_header_type.bit_length]
+        out["inner"] = {"class": type(t.inner_type).__name__, "extent": int(t.inner_type.extent), "bit_length_set": _bls(t.inner_type),
+                        "delimiter_header_bits": t.delimiter_header_type.bit_length}
     return out
 
 
